@@ -1,12 +1,131 @@
 """C17: which attribute the API position comes from, the line lookup of get_line_code, the sort
 key of Script._names, fingerprints of the modelled functions; where Script._names takes its names
 from (callee, is it memoised, does it hand out a one-shot iterator) and the tables of everything
-jedi/api/ remembers between two calls (memo decorators, `self.x = ...`) with the same question."""
+jedi/api/ remembers between two calls (memo decorators, `self.x = ...`) with the same question.  Which tree a Script works on: the `cache=` / `diff_cache=` keywords of the parse
+call in Script.__init__ (scriptParseCache: "never" | "from-disk" | "always"), that `_code` is the text
+that was parsed, that InferenceState.parse_and_get_code hands the keywords on to parso, and the two
+time-stamp comparisons of parso's cache.py (the dependency as installed)."""
 import ast
 from translator.extract import Src, TieBroken, u, lean_list, lean_bool, lean_str
 
+# values of the unchanged source for the constants of `_script_parse`: when the source lost its expected
+# shape the Lean side still builds against the model of the unchanged code (the tie is reported)
+EXPECTED = [
+    ('scriptParseCache', 'String', '"never"'),
+    ('scriptDiffCache', 'Bool', 'true'),
+    ('parsoMemValid', 'String', '"p_time <= module_cache_item.change_time"'),
+    ('parsoPickleOutdated', 'String', '"p_time > os.path.getmtime(cache_path)"'),
+]
+
 
 def generate(repo, g):
+    import os
+    from translator.extract import GEN_DIR, write_if_changed
+    defined = set()
+    orig_define = g.define
+
+    def define(name, typ, value, source):
+        defined.add(name)
+        orig_define(name, typ, value, source)
+    g.define = define
+    try:
+        _generate(repo, g)
+        _script_parse(repo, g)
+    except TieBroken:
+        for name, typ, value in EXPECTED:
+            if name not in defined:
+                orig_define(name, typ, value, 'FALLBACK (source shape not recognised): value of the unchanged code')
+        write_if_changed(os.path.join(GEN_DIR, g.pid + '.lean'), g.text())
+        raise
+    finally:
+        g.define = orig_define
+
+
+def _norm(text):
+    return '\n'.join(line.strip() for line in text.split('\n'))
+
+
+def _script_parse(repo, g):
+    """Script.__init__: which text is parsed, with which cache keywords, and which text is kept"""
+    api = Src(repo, 'jedi/api/__init__.py')
+    inf = Src(repo, 'jedi/inference/__init__.py')
+    settings = Src(repo, 'jedi/settings.py')
+    fn = api.find('Script.__init__')
+    calls = [n for n in ast.walk(fn) if isinstance(n, ast.Call) and u(n.func).endswith('.parse_and_get_code')]
+    if len(calls) != 1:
+        raise TieBroken('api/__init__.py: Script.__init__ no longer has exactly one parse_and_get_code call', u(fn))
+    call = calls[0]
+    kw = {k.arg: k.value for k in call.keywords}
+    if call.args or None in kw or 'file_io' in kw or 'code' not in kw or 'path' not in kw \
+            or u(kw['code']) != 'code' or u(kw['path']) != 'self.path':
+        raise TieBroken('api/__init__.py: Script.__init__ parse call: code= / path= arguments', u(call))
+    src = _norm(u(fn))
+    for need in ('self._module_node, code = self._inference_state.parse_and_get_code(',
+                 'self._code_lines = parso.split_lines(code, keepends=True)', 'self._code = code',
+                 "with open(path, 'rb') as f:\ncode = f.read()"):
+        if need not in src:
+            raise TieBroken('api/__init__.py: Script.__init__ no longer contains `%s`' % need, src)
+
+    def local_value(name):
+        vals = [n.value for n in ast.walk(fn) if isinstance(n, ast.Assign) and len(n.targets) == 1
+                and isinstance(n.targets[0], ast.Name) and n.targets[0].id == name]
+        return vals[0] if len(vals) == 1 else None
+
+    def policy(v, depth=0):
+        if isinstance(v, ast.Constant) and v.value is False:
+            return 'never'
+        if isinstance(v, ast.Constant) and v.value is True:
+            return 'always'
+        if u(v) == 'code is None' and depth > 0:
+            # a local name bound to `code is None` (before `code` is rebound to the file's bytes)
+            return 'from-disk'
+        if isinstance(v, ast.Name) and depth < 3:
+            lv = local_value(v.id)
+            if lv is not None:
+                return policy(lv, depth + 1)
+        return None
+    if 'cache' not in kw:
+        raise TieBroken('api/__init__.py: Script.__init__ parse call has no cache= keyword', u(call))
+    pol = policy(kw['cache'])
+    if pol is None:
+        raise TieBroken('api/__init__.py: Script.__init__ parse call: cache=%s is none of False / True / a name bound '
+                        'to `code is None`' % u(kw['cache']), u(call))
+    g.define('scriptParseCache', 'String', lean_str(pol),
+             'jedi/api/__init__.py:Script.__init__ parse_and_get_code(cache=%s)' % u(kw['cache']))
+    if 'diff_cache' not in kw or u(kw['diff_cache']) != 'settings.fast_parser':
+        raise TieBroken('api/__init__.py: Script.__init__ parse call: diff_cache=', u(call))
+    fast = settings.const('fast_parser')
+    if not isinstance(fast, bool):
+        raise TieBroken('settings.py: fast_parser is not a bool', repr(fast))
+    g.define('scriptDiffCache', 'Bool', lean_bool(fast),
+             'jedi/settings.py:fast_parser (Script.__init__ diff_cache=settings.fast_parser)')
+    pg = inf.find('InferenceState.parse_and_get_code')
+    if 'return (grammar.parse(code=code, path=path, file_io=file_io, **kwargs), code)' not in u(pg):
+        raise TieBroken('inference/__init__.py: parse_and_get_code no longer hands its keywords to grammar.parse', u(pg))
+    # the dependency: parso's revalidation predicates (as installed; not part of /repo)
+    import importlib.util
+    import os
+    spec = importlib.util.find_spec('parso')
+    if spec is None or not spec.origin:
+        raise TieBroken('parso not importable')
+    with open(os.path.join(os.path.dirname(spec.origin), 'cache.py'), encoding='utf-8') as f:
+        ptree = ast.parse(f.read())
+    funcs = {n.name: n for n in ptree.body if isinstance(n, ast.FunctionDef)}
+    lm, lf = funcs.get('load_module'), funcs.get('_load_from_file_system')
+    if lm is None or lf is None:
+        raise TieBroken('parso/cache.py: load_module / _load_from_file_system missing')
+    mem_tests = [u(n.test) for n in ast.walk(lm) if isinstance(n, ast.If) and 'change_time' in u(n.test)]
+    pk_tests = [u(n.test) for n in ast.walk(lf) if isinstance(n, ast.If) and 'getmtime' in u(n.test)]
+    if len(mem_tests) != 1 or len(pk_tests) != 1:
+        raise TieBroken('parso/cache.py: revalidation tests', repr((mem_tests, pk_tests)))
+    g.define('parsoMemValid', 'String', lean_str(mem_tests[0]), 'parso/cache.py:load_module (installed dependency)')
+    g.define('parsoPickleOutdated', 'String', lean_str(pk_tests[0]),
+             'parso/cache.py:_load_from_file_system (installed dependency)')
+    g.fp(api, 'Script.__init__')
+    g.fp(inf, 'InferenceState.parse_and_get_code')
+
+
+def _generate(repo, g):
     classes = Src(repo, 'jedi/api/classes.py')
     api = Src(repo, 'jedi/api/__init__.py')
     helpers = Src(repo, 'jedi/api/helpers.py')
